@@ -524,7 +524,19 @@ class CallGraph:
             if bs:
                 return bs
             if 'trait' in t:
-                return self.trait_impls.get(cname(t), [])
+                impls = self.trait_impls.get(cname(t), [])
+                self_ty = (t.get('gargs') or [''])[0]
+                head = ty_head(self_ty)
+                if '::' not in head and not self_ty.startswith(('[', '(')):
+                    return impls          # a type parameter: any workspace impl
+                if self_ty.startswith('dyn ') or head.startswith('dyn'):
+                    return impls
+                out = []
+                for b in impls:
+                    ih = ty_head(b.impl.split(' as ')[0].lstrip('<')) if b.impl else ''
+                    if ih == head or '::' not in ih:
+                        out.append(b)
+                return out
         return []
 
     def reach(self, start_bodies, bound=None):
